@@ -37,11 +37,13 @@ end Env
 def overlay {α} (top base : Env α) : Env α := top ++ base
 
 /-- `runtime.Context`: `parent` (read-only mapping the lookups fall back to), `vars` (the template's own top-level
-    assignments), `globals_keys`, `exported_vars` (a set: membership is all that is read) -/
+    assignments), `globals_keys`, `_globals` (the globals mapping the context was created with, runtime.py:179-182),
+    `exported_vars` (a set: membership is all that is read) -/
 structure Ctx (α : Type) where
   parent : Env α
   vars : Env α := []
   gkeys : List Name := []
+  globals : Env α := []
   exported : List Name := []
 
 namespace Ctx
@@ -103,7 +105,12 @@ def dumpLocals {α} (frames : List (Frame α)) : Locals α := dedupFirst frames.
 def newContext {α} (globals : Env α) (vars : Option (Env α)) (shared : Bool) (locals : Locals α) : Ctx α :=
   let vars := vars.getD []
   let parent := if shared then vars else overlay vars globals
-  { parent := applyLocals parent locals, gkeys := globals.keys }
+  { parent := applyLocals parent locals, gkeys := globals.keys, globals := globals }
+
+/-- `Context.derived(locals)` (runtime.py:313-325): `new_context(…, self.get_all(), True, None, locals)`, then
+    `globals_keys` and `_globals` are inherited from the context it derives from -/
+def Ctx.derived {α} (c : Ctx α) (locals : Locals α) : Ctx α :=
+  { newContext [] (some c.getAll) true locals with gkeys := c.gkeys, globals := c.globals }
 
 /-- `Template.render(**vars)` → `self.new_context(vars)` (environment.py:1301, 1362-1384) -/
 def rootContext {α} (globals renderVars : Env α) : Ctx α := newContext globals (some renderVars) false []
@@ -130,21 +137,14 @@ structure Situation (α : Type) where
   /-- `with context` (the default for include) / `without context` (the default for import) -/
   withCtx : Bool
 
-/-- `keys = ctx.globals_keys - self.globals.keys()` and `{k: ctx.parent[k] for k in keys}`
-    (environment.py:1436-1439 and 1451-1454); `none` is the `KeyError` of `ctx.parent[k]` -/
+/-- `keys = ctx.globals_keys - self.globals.keys()` (environment.py:1433, 1449) -/
 def extraKeys {α} (ctx : Ctx α) (tgtGlobals : Env α) : List Name :=
   ctx.gkeys.filter fun k => !(tgtGlobals.keys.contains k)
 
-/-- `{k: parent[k] for k in keys}`; `none` as soon as one `parent[k]` raises `KeyError` -/
-def lookupAll {α} (parent : Env α) : List Name → Option (Env α)
-  | [] => some []
-  | k :: r =>
-    match parent.get k, lookupAll parent r with
-    | some v, some e => some ((k, v) :: e)
-    | _, _ => none
-
-def defaultModuleVars {α} (ctx : Ctx α) (tgtGlobals : Env α) : Option (Env α) :=
-  lookupAll ctx.parent (extraKeys ctx tgtGlobals)
+/-- `{k: ctx._globals[k] for k in keys if k in ctx._globals}` (environment.py:1436-1438, 1452-1454; since 1454414 the
+    values are read from the globals mapping the context was created with, no longer from `ctx.parent`) -/
+def defaultModuleVars {α} (ctx : Ctx α) (tgtGlobals : Env α) : Env α :=
+  (extraKeys ctx tgtGlobals).filterMap fun k => (ctx.globals.get k).map fun v => (k, v)
 
 /-- is the statement served from `Template._module` (rendered once, then reused)? -/
 def servedFromCache {α} (s : Situation α) : Bool :=
@@ -157,22 +157,17 @@ def servedFromCache {α} (s : Situation α) : Bool :=
         `template.new_context(context.get_all(), True, {locals})`
     * include without context (1086-1094): `template._get_default_module()` → `make_module()` → `new_context(None)`
     * import without context (1111): `_get_default_module(context)`: the cached module when the importing context
-      has no extra globals keys, else `make_module({k: ctx.parent[k] …})`
-    `none` = the statement raises `KeyError`. -/
-def targetCtx {α} (s : Situation α) : Option (Ctx α) :=
-  if s.withCtx then some (newContext s.tgtGlobals (some s.ctx.getAll) true s.locals)
+      has no extra globals keys, else `make_module({k: ctx._globals[k] …})` -/
+def targetCtx {α} (s : Situation α) : Ctx α :=
+  if s.withCtx then newContext s.tgtGlobals (some s.ctx.getAll) true s.locals
   else match s.kind with
-    | .inc => some (newContext s.tgtGlobals none false [])
+    | .inc => newContext s.tgtGlobals none false []
     | .imp =>
-      match defaultModuleVars s.ctx s.tgtGlobals with
-      | none => none
-      | some extra =>
-        if extra.isEmpty then some (newContext s.tgtGlobals none false [])
-        else some (newContext s.tgtGlobals (some extra) false [])
+      if (extraKeys s.ctx s.tgtGlobals).isEmpty then newContext s.tgtGlobals none false []
+      else newContext s.tgtGlobals (some (defaultModuleVars s.ctx s.tgtGlobals)) false []
 
 /-- what a lookup of `n` in the target template finds before the target assigns anything itself -/
-def visible {α} (s : Situation α) (n : Name) : Option (Option α) :=
-  (targetCtx s).map fun c => c.resolve n
+def visible {α} (s : Situation α) (n : Name) : Option α := (targetCtx s).resolve n
 
 /-! ### module exports: the `exported_vars` bookkeeping -/
 
